@@ -89,13 +89,16 @@ Mins(fr) == IF fr.k = "P" THEN <<SetMin(PXs(fr)), SetMin(PYs(fr))>>
 Maxs(fr) == IF fr.k = "P" THEN <<SetMax(PXs(fr)), SetMax(PYs(fr))>>
             ELSE IF fr.k = "C" THEN <<fr.c[1] + fr.r, fr.c[2] + fr.r>>
             ELSE <<Max2(fr.s[1], fr.e[1]), Max2(fr.s[2], fr.e[2])>>
-Rank(fr) == IF fr.k = "L" THEN 10 ELSE IF fr.k = "M" THEN 20 ELSE IF fr.k = "C" THEN 30 ELSE IF fr.k = "A" THEN 40 ELSE 50
+Rank(fr) == IF fr.k = "L" THEN 10 ELSE IF fr.k = "M" THEN 20 ELSE IF fr.k = "C" THEN 30 ELSE IF fr.k = "A" THEN 40
+            ELSE IF fr.k = "P" THEN 50 ELSE 60
 BLt(x, z) == x = FALSE /\ z = TRUE
 FragLt(x, z) ==
   IF x.k = "L" /\ z.k = "L"
     THEN PLt(x.s, z.s) \/ (x.s = z.s /\ (PLt(x.e, z.e) \/ (x.e = z.e /\ BLt(x.b, z.b))))
   ELSE IF x.k = "A" /\ z.k = "A"
     THEN PLt(x.s, z.s) \/ (x.s = z.s /\ (PLt(x.e, z.e) \/ (x.e = z.e /\ (x.r < z.r \/ (x.r = z.r /\ (BLt(x.mj, z.mj) \/ (x.mj = z.mj /\ BLt(x.sw, z.sw))))))))
+  ELSE IF x.k = "R" /\ z.k = "R"
+    THEN PLt(x.s, z.s) \/ (x.s = z.s /\ (PLt(x.e, z.e) \/ (x.e = z.e /\ BLt(x.f, z.f))))
   ELSE IF x.k = "C" /\ z.k = "C"
     THEN PLt(Mins(x), Mins(z)) \/ (Mins(x) = Mins(z) /\ (PLt(Maxs(x), Maxs(z)) \/ (Maxs(x) = Maxs(z) /\ (x.r < z.r \/ (x.r = z.r /\ BLt(x.f, z.f))))))
   ELSE IF x.k = "P" /\ z.k = "P"
@@ -199,7 +202,7 @@ RectOf(GG) ==
   LET pts == BoundsPts(GG)
       rad == IF IsRectGroup(GG) THEN 0
              ELSE GG[CHOOSE i \in 1..8 : RightArc(GG[i]) /\ \A j \in 1..(i - 1) : ~RightArc(GG[j])].r
-  IN [k |-> "R", s |-> PtMin(pts), e |-> PtMax(pts), r |-> rad, b |-> AnyBroken(GG)]
+  IN [k |-> "R", s |-> PtMin(pts), e |-> PtMax(pts), r |-> rad, b |-> AnyBroken(GG), f |-> FALSE]
 Endorsable(GG) == IsRectGroup(GG) \/ IsRoundedGroup(GG)
 
 ------------------------------------------------------------------------
@@ -230,7 +233,7 @@ Strip(fr) ==
   ELSE IF fr.k = "A" THEN <<"path", fr.s[1], fr.s[2], fr.r, B01(fr.sw), fr.e[1], fr.e[2], B01(fr.mj)>>
   ELSE IF fr.k = "C" THEN <<"circle", fr.c[1], fr.c[2], fr.r, B01(fr.f)>>
   ELSE IF fr.k = "P" THEN <<"polygon">> \o FoldLeft(LAMBDA lst, q : lst \o <<q[1], q[2]>>, <<>>, fr.pts)
-  ELSE IF fr.k = "R" THEN <<"rect", fr.s[1], fr.s[2], fr.e[1] - fr.s[1], fr.e[2] - fr.s[2], fr.r, B01(fr.b)>>
+  ELSE IF fr.k = "R" THEN <<"rect", fr.s[1], fr.s[2], fr.e[1] - fr.s[1], fr.e[2] - fr.s[2], fr.r, B01(fr.b), B01(fr.f)>>
   ELSE <<"text", fr.cell[1] * CW + 2, fr.cell[2] * CH + 12, fr.s>>
 Flatten(results) ==
   LET flat == FoldLeft(LAMBDA lst, rr : lst \o rr.cat \o rr.rects \o rr.singles
